@@ -94,6 +94,8 @@ def stalled_oracle(case, obs):
         return 'with a stalled worker and a full buffer every submission must cost exactly one discard (counter=%s, expected %d)' % (counter, np_ * ni)
     last = {}
     for d in delivered:
+        if d[1:].count('.') != 1 or not d[1:].replace('.', '').isdigit():
+            return 'an item was delivered with altered content: %r' % d
         p, n = d[1:].split('.')
         if int(n) <= last.get(p, -1):
             return 'per-producer-order-broken'
